@@ -501,12 +501,22 @@ func (cc *cacheController) flush() {
 		cc.l3Mu = nil
 	}
 	for k, sem := range cc.l1RLockSems {
+		cc.dropUnvalidatedLine(k)
 		sem.RUnlock()
 		delete(cc.l1RLockSems, k)
 	}
 	for k, sem := range cc.l1LockSems {
+		cc.dropUnvalidatedLine(k)
 		sem.Unlock()
 		delete(cc.l1LockSems, k)
+	}
+}
+
+// dropUnvalidatedLine removes a line that an aborted transfer already pushed
+// to L1 while its MSI state was not set yet.
+func (cc *cacheController) dropUnvalidatedLine(addr comp.AlignedAddress) {
+	if cc.msi.states[msiEntry{cc.id, addr}] == invalid {
+		_, _ = cc.l1d.EvictCacheLine(addr)
 	}
 }
 
